@@ -195,3 +195,33 @@ package atree
 //@   modifies a.childrenHeaders, a.childrenCountSum, a.header, ghost.sto, ghost.stored, ghost.touched, alloc,
 //@        as(child, *ArrayDataSlab).elements, as(child, *ArrayDataSlab).header, as(child, *ArrayDataSlab).next,
 //@        as(child, *ArrayMetaDataSlab).childrenHeaders, as(child, *ArrayMetaDataSlab).childrenCountSum, as(child, *ArrayMetaDataSlab).header
+
+//@ # same kind of node (siblings are at the same level)
+//@ pred sameKind(x ArraySlab, y ArraySlab) = (is(x, *ArrayDataSlab) && is(y, *ArrayDataSlab)) || (is(x, *ArrayMetaDataSlab) && is(y, *ArrayMetaDataSlab))
+
+//@ # lender / borrower preconditions in the unified view
+//@ pred canLendToRightOf(l ArraySlab, size int) = ite(is(l, *ArrayDataSlab), canLendR(as(l, *ArrayDataSlab), size), canLendMeta(as(l, *ArrayMetaDataSlab), size))
+//@ pred canLendToLeftOf(r ArraySlab, size int) = ite(is(r, *ArrayDataSlab), canLendL(as(r, *ArrayDataSlab), size), canLendMeta(as(r, *ArrayMetaDataSlab), size))
+
+//@ func (a *ArrayMetaDataSlab) rebalanceChildren(storage, l, r, li, ri, borrow) (err)  serves C01 C03 C05 C06
+//@   requires storage != nil && wfMeta0(a) && metaLinked(a) && 0 <= li && ri == li + 1 && ri < len(a.childrenHeaders)
+//@   requires isArr(l) && isArr(r) && sameKind(l, r) && l == sto[a.childrenHeaders[li].slabID] && r == sto[a.childrenHeaders[ri].slabID] && nodeWF(l) && nodeWF(r)
+//@   requires (forall k :: 0 <= k && k < len(a.childrenHeaders) && k != li && k != ri ==> a.childrenHeaders[k].count >= 1)
+//@   requires hdrOf(l).size >= 21 && hdrOf(r).size >= 21 && hdrOf(l).count + hdrOf(r).count <= 4294967295
+//@   requires borrow ==> hdrOf(l).size < minThreshold && hdrOf(r).size <= maxThreshold && canLendToLeftOf(r, minThreshold - hdrOf(l).size)
+//@   requires !borrow ==> hdrOf(r).size < minThreshold && hdrOf(l).size <= maxThreshold && canLendToRightOf(l, minThreshold - hdrOf(r).size)
+//@   ensures err != nil ==> categorised(err)
+//@   ensures[C06] err == nil ==> wfMeta(a) && a.header == old(a.header)
+//@   ensures[C01] err == nil ==> len(a.childrenHeaders) == len(old(a.childrenHeaders)) &&
+//@        (forall k :: 0 <= k && k < len(a.childrenHeaders) && k != li && k != ri ==> a.childrenHeaders[k] == old(a.childrenHeaders)[k])
+//@   ensures[C01] err == nil ==> a.childrenHeaders[li].count + a.childrenHeaders[ri].count == old(a.childrenHeaders)[li].count + old(a.childrenHeaders)[ri].count
+//@   ensures[C01] err == nil ==> a.childrenHeaders[li].slabID == old(a.childrenHeaders)[li].slabID && a.childrenHeaders[ri].slabID == old(a.childrenHeaders)[ri].slabID
+//@   ensures[C05] err == nil ==> hdrBand(a.childrenHeaders[li]) && hdrBand(a.childrenHeaders[ri])
+//@   ensures[C05] err == nil ==> nodeWF(l) && nodeWF(r)
+//@   ensures[C09] err == nil ==> sto[a.header.slabID] == a && distinctChildren(a)
+//@   ensures[C09] err == nil ==> agree(a)
+//@   ensures[C03] err == nil ==> has(stored, a) && has(stored, l) && has(stored, r)
+//@   modifies a.childrenHeaders, a.childrenCountSum, ghost.sto, ghost.stored, ghost.touched, alloc,
+//@        as(l, *ArrayDataSlab).elements, as(l, *ArrayDataSlab).header, as(r, *ArrayDataSlab).elements, as(r, *ArrayDataSlab).header,
+//@        as(l, *ArrayMetaDataSlab).childrenHeaders, as(l, *ArrayMetaDataSlab).childrenCountSum, as(l, *ArrayMetaDataSlab).header,
+//@        as(r, *ArrayMetaDataSlab).childrenHeaders, as(r, *ArrayMetaDataSlab).childrenCountSum, as(r, *ArrayMetaDataSlab).header
